@@ -426,6 +426,11 @@ func c20(r *hx.Run) {
 		err := cmd.Run()
 		timer.Stop()
 		buf, rerr := os.ReadFile(out)
+		if harnessFailure(err, rerr) {
+			// the child could not be started or its result file vanished: not an observation about pike
+			r.Inconclusive(fmt.Sprintf("child process could not be run: %v / %v", err, rerr))
+			continue
+		}
 		if err != nil || rerr != nil {
 			tail := stderr.String()
 			if i := strings.Index(tail, "panic:"); i >= 0 {
